@@ -75,10 +75,18 @@ func (sh *SearchHistory) Load() error {
 		return nil
 	}
 
-	err = json.Unmarshal(data, sh)
+	// Decode into a fresh value: decoding into sh itself would reuse the existing
+	// entries and leave their stale fields behind wherever the file omits a field.
+	loaded := SearchHistory{MaxSize: sh.MaxSize}
+	err = json.Unmarshal(data, &loaded)
 	if err != nil {
 		return fmt.Errorf("failed to parse history file: %w", err)
 	}
+	if loaded.Entries == nil {
+		loaded.Entries = make([]SearchEntry, 0)
+	}
+	sh.Entries = loaded.Entries
+	sh.MaxSize = loaded.MaxSize
 
 	return nil
 }
